@@ -159,7 +159,8 @@ func (p *peer) handleStateTransition(i int, t stateTransition) {
 			localID := p.id
 			dominant := localID > remoteID ||
 				(localID == remoteID) && (p.config.LocalAS > p.config.RemoteAS)
-			if dominant && i == out {
+			if dominant == (i == out) {
+				// this FSM's connection was initiated by the dominant router
 				// attempt to disable other FSM
 				verifPoint("peer.collision")
 				select {
